@@ -155,6 +155,27 @@ func checkString(s string) *finding {
 		}
 		return nil
 	}
+	// the COMMAND boundaries are defined for every string without quotes and '<' (no heredoc opener in any spelling), whatever its
+	// backslashes mean for the words: a newline ends the command unless an unescaped backslash stands
+	// DIRECTLY in front of it (a run of an odd number of backslashes)
+	if !strings.ContainsAny(s, "\"<") {
+		ends := 0
+		for i := 0; i < len(s); i++ {
+			if s[i] != '\n' {
+				continue
+			}
+			run := 0
+			for j := i - 1; j >= 0 && s[j] == '\\'; j-- {
+				run++
+			}
+			if run%2 == 0 {
+				ends++
+			}
+		}
+		if len(calls) != ends+1 {
+			return &finding{"command-boundary", "a backslash-newline continues the line; reading stops exactly at the command's newline so the next call returns the next command", fmt.Sprintf("input %s: %d newlines end a command (not directly preceded by an unescaped backslash), so %d calls are needed - it took %d: %q", q(s), ends, ends+1, len(calls), calls)}
+		}
+	}
 	// backslash only in front of a plain letter or a newline (continuation), no quotes/heredoc:
 	// the argument COUNT is still defined (content of such words is unspecified)
 	if joined, ok := resolveBackslashes(s); ok && !strings.ContainsAny(s, "\"") && !strings.Contains(s, "=<<") {
@@ -818,7 +839,7 @@ func replay(wj json.RawMessage) (*fw.Violation, error) {
 
 func init() {
 	fw.Register(&fw.Check{ID: "C17", Level: "exploration",
-		Rule: "ALL byte strings of length <= 7 (quick) / <= 9 (thorough) over the alphabet {space, tab, newline, '\"', backslash, '=', '<', 'a', 0xff}: totality on every one (no panic, terminates, reader drained call by call), SplitArguments agreeing with the first ReadArguments call, and no byte >= 0x80 occurring more often in the arguments than in the input (whatever the context: bare, after a backslash, quoted, heredoc); ALL strings of length <= 4 / <= 5 over the blank-like alphabet {space, tab, 'a', CR, VT, FF, NUL, 0xc2, 0x85, 0xa0, 0xe3, 0x80} (these are word bytes); all pairs of strings of length <= 3 split from two readers in alternation (each call as when split alone; arguments handed out earlier never change); strings without quote/backslash/heredoc additionally against the plain-word reference (per-line blank-separated fields byte for byte, eof flags); strings whose backslashes precede a letter, another backslash (escaped backslash = word byte) or a continuation newline against the argument-count and line-boundary reference. Plus every argument list of <= 3 arguments from a 14-entry pool rendered in every applicable form (bare, quoted, heredoc) with 4 separators (incl. backslash-newline), followed by a second command; plus InjectArgs mapping on each list and on lists of 0..40 (thorough 150) positional arguments (alone, interleaved with named ones, with a '--' tail; no key beyond the last index); plus every heredoc body of <= 4 (quick) / <= 5 (thorough) symbols over {a, newline, E, O, F, space, 0xff} with marker EOF (bodies ending in empty lines or in a prefix of the marker included). distinct = inputs",
+		Rule: "ALL byte strings of length <= 7 (quick) / <= 9 (thorough) over the alphabet {space, tab, newline, '\"', backslash, '=', '<', 'a', 0xff}: totality on every one (no panic, terminates, reader drained call by call), SplitArguments agreeing with the first ReadArguments call, and no byte >= 0x80 occurring more often in the arguments than in the input (whatever the context: bare, after a backslash, quoted, heredoc); ALL strings of length <= 4 / <= 5 over the blank-like alphabet {space, tab, 'a', CR, VT, FF, NUL, 0xc2, 0x85, 0xa0, 0xe3, 0x80} (these are word bytes); all pairs of strings of length <= 3 split from two readers in alternation (each call as when split alone; arguments handed out earlier never change); strings without quote/backslash/heredoc additionally against the plain-word reference (per-line blank-separated fields byte for byte, eof flags); every string without quotes and '<' against the command-boundary reference (a newline ends the command unless an odd run of backslashes stands directly in front of it); strings whose backslashes precede a letter, another backslash (escaped backslash = word byte) or a continuation newline against the argument-count and line-boundary reference. Plus every argument list of <= 3 arguments from a 14-entry pool rendered in every applicable form (bare, quoted, heredoc) with 4 separators (incl. backslash-newline), followed by a second command; plus InjectArgs mapping on each list and on lists of 0..40 (thorough 150) positional arguments (alone, interleaved with named ones, with a '--' tail; no key beyond the last index); plus every heredoc body of <= 4 (quick) / <= 5 (thorough) symbols over {a, newline, E, O, F, space, 0xff} with marker EOF (bodies ending in empty lines or in a prefix of the marker included). distinct = inputs",
 		Run: run, Replay: replay,
 		Assumptions: []string{"length bound as stated; the 'randomly beyond' part is not claimed", "content of words containing a bare backslash is unspecified (only totality and argument count are required)", "an empty heredoc body cannot be rendered by the reference quoting (text must be non-empty)"}})
 }
